@@ -57,12 +57,27 @@ theorem wrapper_is_transparent (env : FloatEnv) (fs : GoFields) (d : Except Err 
     bind env fs d (.wrapped (some b)) = bind env fs d b ∧ bind env fs d (.wrapped none) = .typeError := by
   simp [Params.bind]
 
+/-- A batch WITHOUT rows: the gate applies all the same (a widened, narrowed or otherwise different
+schema is a TypeError), and beyond it only a parameter struct with no tagged field — nothing to
+bind — reaches the handler. -/
+theorem handler_only_if_equal_norows (env : FloatEnv) (fs : GoFields) (decl schema : AFields) (vals : SFields)
+    (h : bind env fs (.ok decl) (.empty schema) = .handler vals) : schema = decl ∧ decl = .nil := by
+  simp only [Params.bind] at h
+  split at h
+  · rename_i he
+    have := fieldsEq_eq _ _ he
+    cases decl with
+    | nil => exact ⟨this, rfl⟩
+    | cons _ _ _ _ => simp at h
+  · cases h
+
 /-- Through any number of wrappers: the handler runs only if the innermost batch exists and
 carries exactly the declared schema. -/
 theorem handler_only_if_core_equal (env : FloatEnv) (fs : GoFields) (decl : AFields) :
     ∀ (b : PBatch) (vals : SFields), bind env fs (.ok decl) b = .handler vals → ∃ row, core b = some (decl, row)
   | .plain schema row, vals, h => ⟨row, by rw [Params.core, handler_only_if_equal env fs decl schema row vals h]⟩
   | .wrapped none, vals, h => by simp [Params.bind] at h
+  | .empty schema, vals, h => ⟨.nil, by rw [Params.core, (handler_only_if_equal_norows env fs decl schema vals h).1]⟩
   | .wrapped (some b), vals, h => by
     simp only [Params.bind] at h
     obtain ⟨row, hr⟩ := handler_only_if_core_equal env fs decl b vals h
